@@ -7,7 +7,7 @@ from typing import Dict, List, Optional, Set, Tuple
 from ..calls import Reach, Resolver
 from ..cfg import CFG
 from ..core import AnalysisError, Report
-from ..effects import ExcFlow, ExcHierarchy, exc_name, handlers_around, raise_sites
+from ..effects import ExcFlow, ExcHierarchy, exc_name, handler_yields, handlers_around, raise_sites
 from ..model import FuncInfo, Program
 
 TITLE = "Impossible conversions fail only with ConversionNotFound, with or without -O"
@@ -252,7 +252,7 @@ def run(rep: Report) -> None:
                      "NotImplemented", fi.where())
         for h in hs:
             names = [exc_name(x) for x in (h.type.elts if isinstance(h.type, ast.Tuple) else [h.type])] if h.type is not None else ["<bare>"]
-            ret_ok = bool(h.body) and isinstance(h.body[-1], ast.Return) and ast.unparse(h.body[-1].value or ast.Constant(0)) == "NotImplemented"
+            ret_ok = handler_yields(fi.node, h)
             rep.check("R07.3", f"{q}:except {','.join(names)}", names == [ALLOWED] and ret_ok,
                       f"handler catches {names} and {'returns NotImplemented' if ret_ok else 'does not return NotImplemented'}: "
                       "a broader clause turns planner crashes into False, a narrower one lets ConversionNotFound escape", fi.where(h))
